@@ -20,7 +20,7 @@ META = common.meta(
 
 def tasks(tier, seed):
     out = []
-    n = 72 if tier == 'quick' else 540
+    n = 72 if tier == 'quick' else common.thorough(540)
     for k in range(n):
         out.append(('vt.props.c08', 't3_case', {'seed': seed, 'k': k, 'backend': 'T3', 'd': 1 + k % 4,
                                                 'kind': ['real', 'complex'][(k // 4) % 2],
